@@ -22,7 +22,9 @@ cache.py    `invalidate_body/def/closure`         (key expression, __M_defname e
             `_get_cache_kw`                       kw.pop("__M_defname", None), setdefault("context", ...) on a copy
             `_ctx_get_or_create`                  `if not self.template.cache_enabled: return creation_function()`
 template.py `Template.__init__`                   module_id = re.sub(r"\\W", "_", uri)
-ext/beaker_cache.py `BeakerCacheImpl`             the names it defines (does it override `CacheImpl.set`?)
+ext/beaker_cache.py `BeakerCacheImpl`             the names it defines (does it override `CacheImpl.set`?); `_get_cache`:
+                                                  `starttime` in the per-call arguments unconditionally
+codegen.py  `visitBlockTag`                       is the block's return value written where the block stands?
 """
 from __future__ import annotations
 
@@ -297,6 +299,53 @@ def _gen(repo) -> str:
     if not (base_raises and calls_impl_set):
         raise RegenError("%s: Cache.set -> self.impl.set / CacheImpl.set raising NotImplementedError not recognised" % rel_c)
 
+    # ---- ext/beaker_cache.py: `_get_cache` hands `starttime` to every Beaker call, with or without a timeout -----------
+    gcf = find_func(bimpl.body, "_get_cache", rel_b)
+    ca_assigns = [n for n in ast.walk(gcf) if isinstance(n, ast.Assign) and len(n.targets) == 1
+                  and _name_is(n.targets[0], "cache_args")]
+    uncond = [n for n in gcf.body if isinstance(n, ast.Assign) and len(n.targets) == 1 and _name_is(n.targets[0], "cache_args")]
+    starttime_always = (len(ca_assigns) == 1 and len(uncond) == 1 and isinstance(uncond[0].value, ast.Dict)
+                        and [ast.unparse(k) for k in uncond[0].value.keys] == ["'starttime'"]
+                        and [ast.unparse(v) for v in uncond[0].value.values] == ["self.cache.starttime"])
+    # nothing deletes / pops / overwrites it afterwards, and it is what is returned
+    for n in ast.walk(gcf):
+        if isinstance(n, (ast.Delete,)) and "cache_args" in ast.unparse(n):
+            starttime_always = False
+        if isinstance(n, ast.Call) and isinstance(n.func, ast.Attribute) and _name_is(n.func.value, "cache_args") \
+                and n.func.attr in ("pop", "clear", "popitem"):
+            starttime_always = False
+        if isinstance(n, ast.Assign) and isinstance(n.targets[0], ast.Subscript) and _name_is(n.targets[0].value, "cache_args") \
+                and ast.unparse(n.targets[0].slice) == "'starttime'":
+            starttime_always = False
+    rets = [n for n in ast.walk(gcf) if isinstance(n, ast.Return)]
+    if not (len(rets) == 1 and ast.unparse(rets[0].value) in ("(cache, cache_args)", "cache, cache_args")):
+        starttime_always = False
+    # get_or_create / set / get / invalidate all go through _get_cache and pass its second result on as **kw
+    users = {}
+    for name in ("get_or_create", "set", "put", "get", "invalidate"):
+        f = next((n for n in bimpl.body if isinstance(n, ast.FunctionDef) and n.name == name), None)
+        if f is None:
+            continue
+        src = ast.unparse(f)
+        users[name] = "cache, kw = self._get_cache(**kw)" in src and "**kw)" in src.split("self._get_cache(**kw)")[-1]
+    starttime_passed_on = all(users.get(n, False) for n in ("get_or_create", "get") if n in users) and "get_or_create" in users
+    cstart = None
+    for n in ast.walk(cinit):
+        if isinstance(n, ast.Assign) and len(n.targets) == 1 and ast.unparse(n.targets[0]) == "self.starttime":
+            cstart = ast.unparse(n.value)
+
+    # ---- codegen.visitBlockTag: is what a block returns written at the place where the block stands? ------------------
+    vbt = find_func(grm.body, "visitBlockTag", rel_g)
+    lines_emitted = [c.value for n in ast.walk(vbt) if isinstance(n, ast.Call) and isinstance(n.func, ast.Attribute)
+                     and n.func.attr == "writeline" for c in ast.walk(n) if isinstance(c, ast.Constant)
+                     and isinstance(c.value, str) and "%s(" in c.value]
+    if len(lines_emitted) != 2:
+        raise RegenError("%s: visitBlockTag: expected two call formats (anonymous / named), found %r" % (rel_g, lines_emitted))
+    written = [l.startswith("__M_writer(") for l in lines_emitted]
+    if written[0] != written[1]:
+        raise RegenError("%s: visitBlockTag: anonymous and named blocks are called differently: %r" % (rel_g, lines_emitted))
+    block_result_written = written[0]
+
     def b(x):
         return "true" if x else "false"
 
@@ -347,6 +396,15 @@ def _gen(repo) -> str:
          "/-- `Cache.set` calls `impl.set`, `CacheImpl.set` raises NotImplementedError; does `BeakerCacheImpl` define `set`? "
          "(it defines: %s) -/" % ", ".join(sorted(x for x in bnames if not x.startswith("_"))),
          "def beakerImplDefinesSet : Bool := %s" % b("set" in bnames),
+         "/-- `BeakerCacheImpl._get_cache`: the per-call arguments are `{'starttime': self.cache.starttime}` plus, with a "
+         "timeout, `expiretime` - never without `starttime` -/",
+         "def beakerAlwaysPassesStarttime : Bool := %s" % b(starttime_always),
+         "/-- `get_or_create` / `get` (and `set`, `invalidate`) hand those arguments to Beaker -/",
+         "def beakerStarttimeReachesCalls : Bool := %s" % b(starttime_passed_on),
+         "/-- `Cache.__init__`: `self.starttime = %s` -/" % cstart,
+         "def starttimeIsModuleModifiedTime : Bool := %s" % b(cstart == "template.module._modified_time"),
+         "/-- `visitBlockTag` writes what the block's callable returns (`__M_writer(f() or '')`) at the block's place -/",
+         "def blockResultWritten : Bool := %s" % b(block_result_written),
          "/-- `Template.__init__`: `module_id = re.sub(%r, %r, uri)` -/" % (mod_pat, mod_rep),
          "def moduleIdReplacement : Char := Char.ofNat %d" % ord(mod_rep),
          "",
